@@ -552,6 +552,12 @@ func reloadGenCase(rng *Rng, maxOps int) (*reloadCase, error) {
 			w.Configs = append(w.Configs, reloadInvalidConfig(rng, cur, preempt, policy))
 		}
 	}
+	// a configuration that passes validation and the dry run but is refused by the real update (unknown placement rule)
+	lateReject := -1
+	if rng.Chance(50) {
+		lateReject = len(w.Configs)
+		w.Configs = append(w.Configs, reloadConfigYAML(cur, preempt, policy, "bogus"))
+	}
 	// scenario twins of the last configuration (or of the initial one)
 	var scen []reloadScenario
 	baseIdx, baseTree := len(w.Configs)-1, cur
@@ -656,6 +662,16 @@ func reloadGenCase(rng *Rng, maxOps int) (*reloadCase, error) {
 			}
 		case x < th[13]:
 			ci := rng.Intn(len(w.Configs))
+			if lateReject >= 0 && rng.Chance(25) {
+				// refused late, then sent again (and once more after something else happened)
+				emit(CoreOp{Kind: "reload", Conf: lateReject})
+				emit(CoreOp{Kind: "reload", Conf: lateReject})
+				if rng.Chance(50) {
+					emit(CoreOp{Kind: "sched"})
+					emit(CoreOp{Kind: "reload", Conf: lateReject})
+				}
+				continue
+			}
 			if len(scen) > 0 && rng.Chance(30) {
 				sc := scen[rng.Intn(len(scen))]
 				plain := func(queue string) CoreOp {
